@@ -666,7 +666,9 @@ class SymDF:
             col = args[0]
             lab = self.cols[col].val
             newcols = self.cols if kwargs.get("drop") is False else {c: k for c, k in self.cols.items() if c != col}
-            return SymDF(self.uni, newcols, self.present, lambda r: lab(r), self.name + "_si", self.order)
+            out = SymDF(self.uni, newcols, self.present, lambda r: lab(r), self.name + "_si", self.order)
+            out.label_name = col
+            return out
         if attr == "apply" and kwargs.get("axis") == 1:
             _assume("pandas DataFrame.apply(f, axis=1): f applied to every row (a mapping column -> value), result aligned with the rows")
             f = args[0]
@@ -746,6 +748,8 @@ class SymDF:
             return FrameArray(self)
         if attr == "merge":
             return merge(ex, self, args[0], kwargs, pc)
+        if attr == "join":
+            return join(ex, self, args[0], kwargs, pc)
         if attr == "sort_values":
             _assume("pandas DataFrame.sort_values(...): a permutation of the rows (contents and labels travel with the rows)")
             if kwargs.get("inplace"):
@@ -793,6 +797,54 @@ def merge(ex, left: SymDF, right, kwargs, pc) -> SymDF:
         nm = c if c not in left.cols else c + "_y"
         cols[nm] = Col((lambda r, _k=k: _k.val(r[la:])), (lambda r, _k=k: _k.null(r[la:])) if k.null else None, k.dtype)
     return SymDF(uni, cols, present, None, "merged")
+
+
+def join(ex, left: SymDF, right: SymDF, kwargs, pc) -> SymDF:
+    """left.join(right, on=key, rsuffix=...): LEFT join of left[key] against right's index labels.
+
+    Assumed contract (right labels unique - an obligation): every left row is kept once, in order; the columns of right
+    (suffixed where they clash) hold the values of the right row whose label equals left[key], missing where there is none."""
+    on = kwargs.get("on")
+    rsuffix = kwargs.get("rsuffix", "")
+    how = kwargs.get("how", "left")
+    if not isinstance(on, str) or how != "left" or not isinstance(right, SymDF):
+        raise Unsupported("join pattern")
+    if right.label is None:
+        raise Unsupported("join against a frame with unknown labels")
+    _assume("pandas DataFrame.join(other, on=key) (left join, unique labels in other): rows of the left frame unchanged and in order; other's columns looked "
+            "up by label == key, NaN where no label matches")
+    k = next(_uid)
+    # the key may be the left frame's index (set_index(key) was applied before) or a column
+    if on in left.cols:
+        keyv = left.cols[on].val
+    elif getattr(left, "label_name", None) == on and left.label is not None:
+        keyv = left.label
+    else:
+        raise Unsupported(f"join key {on!r} is neither a column nor the index name")
+    wit = [z3.Function(f"join{k}_w{i}", *([z3.IntSort()] * left.uni.arity), z3.IntSort()) for i in range(right.uni.arity)]
+    w = lambda r: tuple(f(*r) for f in wit)
+    rl, rp = right.label, right.present
+    r = left.uni.skolem(f"jr{k}")
+    m = right.uni.skolem(f"jm{k}")
+    m2 = right.uni.skolem(f"jn{k}")
+    ex.facts.append(z3.ForAll(list(r) + list(m), z3.Implies(z3.And(to_z3(rp(m)), to_z3(rl(m)) == to_z3(keyv(r))),
+                                                           z3.And(to_z3(rp(w(r))), to_z3(rl(w(r))) == to_z3(keyv(r))))))
+    ex.oblige(f"join_right_labels_unique_{k}", [to_z3(rp(m)), to_z3(rp(m2)), to_z3(rl(m)) == to_z3(rl(m2))] + list(ex.facts),
+              z3.And(*[a == b for a, b in zip(m, m2)]), "the joined frame's labels must be unique (otherwise join duplicates left rows)")
+
+    def hit(rr):
+        return z_and(rp(w(rr)), to_z3(rl(w(rr))) == to_z3(keyv(rr)))
+
+    cols = dict(left.cols)
+    for c, kc in right.cols.items():
+        nm = c + rsuffix if c in left.cols else c
+        if nm in cols:
+            ex.oblige(f"join_column_clash_{c}", pc, False, "columns overlap but no suffix specified")
+        cols[nm] = Col((lambda rr, _k=kc: _k.val(w(rr))), (lambda rr, _k=kc: z_or(z_not(hit(rr)), _k.isnull(w(rr)))), "float" if kc.dtype == "int" else kc.dtype)
+    out = SymDF(left.uni, cols, left.present, left.label, "joined", left.order)
+    out.label_name = getattr(left, "label_name", None)
+    out.join_witness, out.join_hit = w, hit
+    return out
 
 
 # ---------------------------------------------------------------------------------------------- query strings
